@@ -25,6 +25,7 @@ import M4riProofs.PleNaive
 import M4riProofs.MathlibSpec
 import M4riProofs.Top
 import M4riProofs.GenTieSolve
+import M4riProofs.GenTiePleFinal
 namespace M4ri.Props.C06
 open M4ri M4ri.BMat
 
@@ -86,5 +87,12 @@ theorem solve_left_end_to_end (L1 L2 L3 : Nat) {A B : BMat} (hA : A.WF) (hB : B.
 #check @M4ri.GenTieSolve.pluqSolveLeft_eq_C
 #check @M4ri.GenTieSolve.pluqSolveLeft_spec
 #check @M4ri.GenTieSolve.mzdSetUi_zero_eq
+
+
+/-! ### tie to the C text: the RECURSIVE BRANCH of `_mzd_ple` (split, 6 matrix windows, 4 permutation windows, first recursive call, Schur
+    complement through the translated `mzd_apply_p_left` and `_mzd_trsm_lower_left`, product, second recursive call, fix-ups of A10 / P / Q,
+    L compression) is generated by vlib/ctrans.py on every check; with the recursive calls instantiated by the model at `fuel` it returns
+    exactly what `pleRec (fuel + 1)` computes: rank, storage, P, Q (GenTiePle.lean; call contracts derived from `pleRec_spec`) -/
+#check @M4ri.GenTiePle.pleRecStep_pleRec_full
 
 end M4ri.Props.C06
